@@ -62,10 +62,10 @@ func (e *env) unshare(key string) *env {
 
 // fctx: per-function translation state.
 type fctx struct {
-	t     *Translator
-	fi    *funcInfo
-	used  map[string]bool
-	ntemp int
+	t      *Translator
+	fi     *funcInfo
+	used   map[string]bool
+	ntemp  int
 	nilErr map[*ast.Ident]bool // [ext:T20] occurrences of nil that stand for the nil error
 }
 
